@@ -126,6 +126,8 @@ def kepler_search (ecc m : Num) : Option Num :=
 
 /-- `kepler_equation(eccentricity, mean_anomaly)`: degree values of the Angles `(e, v)`. -/
 def kepler_equation (ecc mdeg : Num) : PyRes (Num × Num) :=
+  -- if eccentricity >= 1.0: raise ValueError("Invalid eccentricity: Orbit must be elliptic")
+  if ple 1.0 ecc then .error .valueError else
   let fm := kepler_reduce mdeg
   let f := fm.1
   let m := fm.2
@@ -155,6 +157,8 @@ def kepler_of_float (ecc mean_anomaly : Num) : PyRes (Num × Num) :=
 
 /-- `velocity(r, a)`: `42.1218 * sqrt((1.0 / r) - (1.0 / (2.0 * a)))`. -/
 def velocity (r a : Num) : PyRes Num :=
+  -- if r <= 0.0 or a <= 0.0: raise ValueError("Invalid input values")
+  if ple r 0.0 || ple a 0.0 then .error .valueError else
   match fdiv 1.0 r with
   | .error x => .error x
   | .ok ir =>
